@@ -150,6 +150,40 @@ def explore(res, rng, n):
                     f'agg {b} {enc_rows(rows)}', f'c19ag {b} {enc_rows(rows)} {enc_rows(o)}')
             except OffGrid as e:
                 res.disagreements.append({'what': 'cycleCountingAggregation off grid', 'input': rows, 'bin': b, 'impl': str(e)})
+    # ---- aggregation with decimal bin sizes (0.1, 0.2, 0.3, 0.05: binSize * k is not binSize * (k-1) + binSize in binary64):
+    # distinct ascending centres that are multiples of the bin size, every value within half a bin of its centre, total conserved
+    for _ in range(max(30, n // 20)):
+        bd = rng.choice([0.1, 0.2, 0.3, 0.05, 0.025, 0.7])
+        vals = [round(rng.uniform(0, 40) * bd, rng.choice([2, 3])) for _ in range(rng.choice([2, 3, 5, 8, 12]))]
+        tab = [[v, float(rng.choice([1, 2, 0.5]))] for v in vals]
+        out = call(utils.cycleCountingAggregation, [list(r) for r in tab], bd)
+        res.evaluations += 1
+        res.stat('agg_decimal_bin_size')
+        case = {'rows': tab, 'bin': bd}
+        if isinstance(out, str):
+            res.failures.append({'signature': f'C19:cycleCountingAggregation:decimal:raised:{bd}', 'clause': 'valid table raised ' + out, 'api': 'cycleCountingAggregation', 'input': case})
+            continue
+        out = [] if out == [[]] else out
+        idxs = [round(k / bd) for k, _ in out]
+        bad = []
+        if idxs != sorted(set(idxs)):
+            bad.append('keys-sorted-distinct')
+        if any(abs(k - i * bd) > 1e-9 * max(1.0, abs(k)) for (k, _), i in zip(out, idxs)):
+            bad.append('keys-multiples')
+        if abs(sum(c for _, c in out) - sum(c for _, c in tab)) > 1e-9:
+            bad.append('total')
+        want = {}
+        for v, c in tab:
+            q = v / bd
+            i = int(q)
+            # nearest centre, ties downwards; values within 1e-9 of a tie may go either way
+            cand = [i, i + 1]
+            near = [j for j in cand if abs(v - j * bd) <= bd / 2 + 1e-9]
+            if not any(j in idxs for j in near):
+                bad.append('half-bin')
+        if bad:
+            res.failures.append({'signature': f'C19:cycleCountingAggregation:decimal:{",".join(sorted(set(bad)))}:{json.dumps(case)}',
+                                 'clause': 'fail:' + ','.join(sorted(set(bad))), 'api': 'cycleCountingAggregation', 'input': case, 'impl_output': out})
     for (kind, api, case, impl), a in zip(meta, core.driver_batch(reqs)):
         if kind == 'corr':
             res.traces += 1
